@@ -106,7 +106,11 @@ func c16MkServer(pki *tlsPKI, gm bool, r *mon.RNG, name string, klog *keyLog, st
 		s.cfg.Certificates = []gmtls.Certificate{{Certificate: [][]byte{der}, PrivateKey: rk}}
 		s.leafRaw = der
 		s.suites = []uint16{gmtls.TLS_ECDHE_RSA_WITH_AES_128_GCM_SHA256, gmtls.TLS_RSA_WITH_AES_128_CBC_SHA}
-		s.cfg.MinVersion = gmtls.VersionTLS12
+		s.cfg.MinVersion = gmtls.VersionTLS10
+		// the server's highest version may lie below what the client offers (TLS 1.2): the session then lives at the
+		// negotiated version
+		s.cfg.MaxVersion = []uint16{gmtls.VersionTLS12, gmtls.VersionTLS12, gmtls.VersionTLS11, gmtls.VersionTLS10}[r.Intn(4)]
+		s.cfg.ClientCAs = pki.gmStdPool // standard-TLS clients present the RSA certificate (SM2 certificates have no place below TLS 1.2)
 	}
 	s.cfg.CipherSuites = s.suites
 	var k [32]byte
@@ -140,6 +144,10 @@ func c16Plan(r *mon.RNG, hi, nServers int) []c16Op {
 		return []c16Op{con(x), con(x), {"rotate-replace-all", x, 0}, con(x), con(x)}
 	case 3: // tickets switched off and on again
 		return []c16Op{con(x), {"server-tickets-toggle", x, 0}, con(x), {"server-tickets-toggle", x, 0}, con(x), con(x)}
+	case 5: // one member of a farm rotates its keys; the others are unchanged and must keep resuming their own tickets
+		if nServers > 1 {
+			return []c16Op{con(y), con(x), {"rotate-replace-all", x, 0}, con(y), con(x), con(y)}
+		}
 	case 4: // client-certificate policy changes between connections
 		return []c16Op{con(x), {"server-auth", x, r.Intn(4)}, con(x), {"server-auth", x, r.Intn(4)}, con(x)}
 	}
@@ -193,9 +201,17 @@ func runC16History(c *Ctx, hi int) {
 	}
 	farm := nServers > 1 && r.Intn(2) == 0
 	if farm { // a server farm: different certificates, shared ticket keys
-		for _, sv := range servers[1:] {
+		for i, sv := range servers[1:] {
 			sv.keys = append([][32]byte{}, servers[0].keys...)
-			sv.cfg.SetSessionTicketKeys(sv.keys)
+			if (hi+i)%2 == 0 {
+				sv.cfg.SetSessionTicketKeys(sv.keys)
+			} else {
+				// the member is made by copying the first member's configuration (Config.Clone) and giving it its own
+				// identity: the copy owns its ticket keys from then on
+				nc := servers[0].cfg.Clone()
+				nc.Certificates, nc.Rand = sv.cfg.Certificates, sv.cfg.Rand
+				sv.cfg = nc
+			}
 		}
 	}
 	auths := []gmtls.ClientAuthType{gmtls.NoClientCert, gmtls.RequestClientCert, gmtls.RequireAnyClientCert, gmtls.RequireAndVerifyClientCert}
@@ -274,13 +290,16 @@ func runC16History(c *Ctx, hi int) {
 		if gm {
 			ccfg.GMSupport, ccfg.RootCAs = gmtls.NewGMSupport(), pki.pool
 		} else {
-			ccfg.RootCAs, ccfg.MinVersion, ccfg.MaxVersion = stdPool, gmtls.VersionTLS12, gmtls.VersionTLS12
+			ccfg.RootCAs, ccfg.MinVersion, ccfg.MaxVersion = stdPool, gmtls.VersionTLS10, gmtls.VersionTLS12
 		}
 		if withClientCert {
 			ccfg.Certificates = []gmtls.Certificate{pki.cliSig, pki.cliEnc}
+			if !gm {
+				ccfg.Certificates = []gmtls.Certificate{pki.rsaCert}
+			}
 		}
 		out := handshakePair(ccfg, s.cfg, nil)
-		w := map[string]interface{}{"history": append([]string{}, ops...), "mode": map[bool]string{true: "GMSSL", false: "TLS1.2"}[gm], "cache_capacity": capacity, "servers": nServers, "shared_ticket_keys": farm, "client_certificate": withClientCert, "client_error": errStr(out.cli.err), "server_error": errStr(out.srv.err), "cache_log": append([]string{}, cache.log...)}
+		w := map[string]interface{}{"history": append([]string{}, ops...), "mode": map[bool]string{true: "GMSSL", false: "TLS"}[gm], "cache_capacity": capacity, "servers": nServers, "shared_ticket_keys": farm, "client_certificate": withClientCert, "client_error": errStr(out.cli.err), "server_error": errStr(out.srv.err), "cache_log": append([]string{}, cache.log...)}
 		for side, e := range map[string]*endResult{"client": &out.cli, "server": &out.srv} {
 			if e.panicked != nil {
 				rep.Violation("C16/Handshake/panic/"+side+"/"+e.panicked.Func, e.panicked.Value, w)
@@ -290,7 +309,7 @@ func runC16History(c *Ctx, hi int) {
 		common := false
 		for _, a := range cliSuites {
 			for _, b := range s.suites {
-				if a == b {
+				if a == b && !(tls12Only(a) && !gm && s.cfg.MaxVersion != 0 && s.cfg.MaxVersion < gmtls.VersionTLS12) {
 					common = true
 				}
 			}
@@ -304,7 +323,7 @@ func runC16History(c *Ctx, hi int) {
 			continue
 		}
 		if !out.cli.completed || !out.srv.completed {
-			rep.Violation("C16/Handshake/fails-where-resumption-or-full-handshake-must-succeed/"+map[bool]string{true: "GMSSL", false: "TLS1.2"}[gm], fmt.Sprintf("%v / %v", out.cli.err, out.srv.err), w)
+			rep.Violation("C16/Handshake/fails-where-resumption-or-full-handshake-must-succeed/"+map[bool]string{true: "GMSSL", false: "TLS"}[gm], fmt.Sprintf("%v / %v", out.cli.err, out.srv.err), w)
 			break
 		}
 		cst, sst := out.cli.state, out.srv.state
@@ -364,7 +383,7 @@ func runC16History(c *Ctx, hi int) {
 		switch expect {
 		case "must":
 			if !sst.DidResume {
-				rep.Violation("C16/resumption/valid-ticket-under-unchanged-configuration-not-resumed/"+map[bool]string{true: "GMSSL", false: "TLS1.2"}[gm], "", w)
+				rep.Violation("C16/resumption/valid-ticket-under-unchanged-configuration-not-resumed/"+map[bool]string{true: "GMSSL", false: "TLS"}[gm], "", w)
 			}
 		case "must-not":
 			if sst.DidResume {
@@ -427,7 +446,7 @@ func runC16History(c *Ctx, hi int) {
 		c06Exchange(rep, out.cli.conn, out.srv.conn, seed, 300, r, w, "C16")
 		out.cli.conn.Close()
 		out.srv.conn.Close()
-		rep.Eval(fmt.Sprintf("history/%s/expect=%s/resumed=%v", map[bool]string{true: "GMSSL", false: "TLS1.2"}[gm], expect, sst.DidResume))
+		rep.Eval(fmt.Sprintf("history/%s/expect=%s/resumed=%v", map[bool]string{true: "GMSSL", false: "TLS"}[gm], expect, sst.DidResume))
 		rep.Count("connections/"+expect, 1)
 		if hi == 1 && nConn == 2 {
 			rep.Sample(w)
@@ -525,10 +544,13 @@ func runC16Tamper(c *Ctx) {
 			if s == nil {
 				continue
 			}
+			if !gm {
+				s.cfg.MaxVersion = gmtls.VersionTLS12
+			}
 			if variant == "with-client-cert" {
 				s.cfg.ClientAuth = gmtls.RequireAndVerifyClientCert
 			}
-			mode := map[bool]string{true: "GMSSL", false: "TLS1.2"}[gm]
+			mode := map[bool]string{true: "GMSSL", false: "TLS"}[gm]
 			mkClient := func(cache gmtls.ClientSessionCache, rr *mon.RNG) *gmtls.Config {
 				ccfg := &gmtls.Config{ServerName: s.dnsName, CipherSuites: s.suites[:1], Time: func() timeT { return fixedNow }, Rand: mon.NewRNG(rr.U64()), ClientSessionCache: cache, KeyLogWriter: klog}
 				if gm {
@@ -538,6 +560,9 @@ func runC16Tamper(c *Ctx) {
 				}
 				if variant == "with-client-cert" {
 					ccfg.Certificates = []gmtls.Certificate{pki.cliSig, pki.cliEnc}
+					if !gm {
+						ccfg.Certificates = []gmtls.Certificate{pki.rsaCert}
+					}
 				}
 				return ccfg
 			}
